@@ -7,50 +7,172 @@
 use pallas_addresses::byron::ByronAddress;
 use pallas_addresses::Address;
 
-/// `Address::from_bytes` on a buffer of symbolic length 0..=N whose first byte has the high nibble `T`
-/// (low nibble symbolic); Kani's built-in panic / bounds / overflow checks are the property.
+// Engineering note (measured): a symbolic slice length or a symbolic header nibble each make CBMC lose the
+// constant header byte (`bytes.first()` merges the Some/None paths), after which all 11 type parsers
+// incl. the Byron CBOR decoder are walked at once: no verdict in 500 s even for the undefined types.
+// So every call below is made with a *constant* header byte and a *constant* length, selected by
+// symbolic guards inside concretely-counted loops; the bytes after the header are symbolic.
+
+/// one guarded call per length lo..=hi (header constant)
+fn sweep_len<const N: usize>(b: &[u8; N], lo: usize, hi: usize, sel: usize) {
+    let mut n = lo;
+    while n <= hi {
+        if sel == n {
+            let r = Address::from_bytes(&b[..n]);
+            kani::cover!(r.is_ok() && n == hi, "longest input accepted");
+            kani::cover!(r.is_err() && n == lo, "shortest input rejected");
+            core::mem::forget(r);
+        }
+        n += 1;
+    }
+}
+
 macro_rules! addr_total {
-    ($name:ident, $t:expr, $n:expr, $unw:expr) => {
+    ($name:ident, $t:expr) => {
         #[kani::proof]
-        #[kani::unwind($unw)]
+        #[kani::unwind(61)]
+        #[kani::stub(std::fmt::format, crate::stubs::fmt_format_stub)]
+        fn $name() {
+            let mut b: [u8; 58] = kani::any();
+            let sel: usize = kani::any();
+            let which: bool = kani::any();
+            if which {
+                // every length 1..=58, network nibble 1
+                kani::assume(sel >= 1 && sel <= 58);
+                b[0] = ($t << 4) | 1;
+                sweep_len(&b, 1, 58, sel);
+            } else {
+                // every network nibble, full length
+                kani::assume(sel < 16);
+                let mut k: u8 = 0;
+                while k < 16 {
+                    if sel == k as usize {
+                        b[0] = ($t << 4) | k;
+                        let r = Address::from_bytes(&b);
+                        assert!(r.is_ok(), "58 bytes with a defined hash-only header are accepted");
+                        core::mem::forget(r);
+                    }
+                    k += 1;
+                }
+            }
+        }
+    };
+}
+
+// bound: arbitrary bytes after a constant header; header high nibble concrete per harness (hash-only types 0-3, 6, 7, 14, 15); (every length 1..=58 with network nibble 1) and (every network nibble 0..=15 at length 58); unwind 61
+addr_total!(c09_q_addr_t0, 0u8);
+addr_total!(c09_t_addr_t1, 1u8);
+addr_total!(c09_t_addr_t2, 2u8);
+addr_total!(c09_t_addr_t3, 3u8);
+addr_total!(c09_q_addr_t6, 6u8);
+addr_total!(c09_t_addr_t7, 7u8);
+addr_total!(c09_q_addr_t14, 14u8);
+addr_total!(c09_t_addr_t15, 15u8);
+
+/// pointer types: payload = 28-byte hash + up to three varuints read from arbitrary bytes
+macro_rules! addr_total_ptr {
+    ($name:ident, $hdr:expr, $lo:expr, $hi:expr) => {
+        #[kani::proof]
+        #[kani::unwind(14)]
+        #[kani::stub(std::fmt::format, crate::stubs::fmt_format_stub)]
+        #[kani::stub(<&[u8] as std::io::Read>::read_exact, crate::stubs::slice_read_exact_err_model)]
+        fn $name() {
+            let mut b: [u8; $hi] = kani::any();
+            b[0] = $hdr;
+            let sel: usize = kani::any();
+            kani::assume(sel >= $lo && sel <= $hi);
+            sweep_len(&b, $lo, $hi, sel);
+        }
+    };
+}
+// bound: header byte constant (0x41 / 0x5f; the low nibble only feeds parse_network, covered by the hash-only harnesses), arbitrary bytes, every length in the stated window (pointer area 0..=11 bytes: each varuint read stops after at most 10 groups); unwind 14
+// stub: <&[u8] as std::io::Read>::read_exact -> model with the same effect, EOF error built as io::Error::from(ErrorKind::UnexpectedEof) (see stubs.rs)
+addr_total_ptr!(c09_q_addr_t4_len28_33, 0x41u8, 28, 33);
+addr_total_ptr!(c09_t_addr_t4_len34_40, 0x41u8, 34, 40);
+addr_total_ptr!(c09_t_addr_t5_len28_40, 0x5fu8, 28, 40);
+
+/// type 8: the header byte is the first byte of the CBOR item (array of k elements)
+macro_rules! addr_total_byron {
+    ($name:ident, $hdr:expr, $lo:expr, $hi:expr) => {
+        #[kani::proof]
+        #[kani::unwind(14)]
+        #[kani::stub(std::fmt::format, crate::stubs::fmt_format_stub)]
+        fn $name() {
+            let mut b: [u8; $hi] = kani::any();
+            b[0] = $hdr;
+            let sel: usize = kani::any();
+            kani::assume(sel >= $lo && sel <= $hi);
+            sweep_len(&b, $lo, $hi, sel);
+        }
+    };
+}
+// bound: Address::from_bytes, header byte constant 0x80..0x8f (CBOR array head of k elements), arbitrary bytes, every length 1..=8 (quick, 0x82) / 1..=12 (thorough); unwind 14
+addr_total_byron!(c09_q_addr_t8_82_len8, 0x82u8, 1, 8);
+addr_total_byron!(c09_t_addr_t8_82_len12, 0x82u8, 1, 12);
+addr_total_byron!(c09_t_addr_t8_80_len12, 0x80u8, 1, 12);
+addr_total_byron!(c09_t_addr_t8_83_len12, 0x83u8, 1, 12);
+addr_total_byron!(c09_t_addr_t8_8f_len12, 0x8fu8, 1, 12);
+
+/// ByronAddress::from_bytes directly: first byte constant per guarded call (array(2) / indefinite array / other), rest symbolic
+macro_rules! byron_total {
+    ($name:ident, $first:expr, $n:expr) => {
+        #[kani::proof]
+        #[kani::unwind(14)]
         #[kani::stub(std::fmt::format, crate::stubs::fmt_format_stub)]
         fn $name() {
             let mut b: [u8; $n] = kani::any();
-            let low: u8 = kani::any();
-            b[0] = ($t << 4) | (low & 0x0f);
-            let n: usize = kani::any();
-            kani::assume(n <= $n);
-            let r = Address::from_bytes(&b[..n]);
-            kani::cover!(r.is_ok(), "some input is accepted");
+            b[0] = $first;
+            let r = ByronAddress::from_bytes(&b);
             kani::cover!(r.is_err(), "some input is rejected");
             core::mem::forget(r);
         }
     };
 }
-
-// bound: arbitrary bytes, symbolic length 0..=58, header high nibble concrete per harness (hash-only types 0-3, 6, 7, 14, 15), low nibble symbolic; unwind 4
-addr_total!(c09_q_addr_t0, 0u8, 58, 4);
-addr_total!(c09_t_addr_t1, 1u8, 58, 4);
-addr_total!(c09_t_addr_t2, 2u8, 58, 4);
-addr_total!(c09_t_addr_t3, 3u8, 58, 4);
-addr_total!(c09_q_addr_t6, 6u8, 58, 4);
-addr_total!(c09_t_addr_t7, 7u8, 58, 4);
-addr_total!(c09_q_addr_t14, 14u8, 58, 4);
-addr_total!(c09_t_addr_t15, 15u8, 58, 4);
+// bound: ByronAddress::from_bytes, first byte and length constant per harness (82 x 6/12 bytes, 9f x 12, 00 x 2), remaining bytes symbolic; unwind 14
+byron_total!(c09_q_byron_82_len6, 0x82u8, 6);
+byron_total!(c09_t_byron_82_len12, 0x82u8, 12);
+byron_total!(c09_t_byron_9f_len12, 0x9fu8, 12);
+byron_total!(c09_t_byron_00_len2, 0x00u8, 2);
 
 /// Undefined header types 9..=13 and the empty input are rejected without a panic.
-/// bound: arbitrary bytes, symbolic length 0..=58, header byte symbolic with high nibble in 9..=13; unwind 4
+/// bound: header high nibble 9..=13 with low nibble 0 and 15 (constant per guarded call), lengths 1 and 58, plus the empty slice; unwind 7
+#[kani::proof]
+#[kani::unwind(7)]
+#[kani::stub(std::fmt::format, crate::stubs::fmt_format_stub)]
+fn c09_q_addr_undefined_types() {
+    let mut b: [u8; 58] = kani::any();
+    let sel: u8 = kani::any();
+    kani::assume(sel >= 9 && sel <= 13);
+    let lo: bool = kani::any();
+    let mut t: u8 = 9;
+    while t <= 13 {
+        if sel == t {
+            b[0] = if lo { t << 4 } else { (t << 4) | 15 };
+            let r = Address::from_bytes(&b);
+            assert!(r.is_err(), "undefined header types are rejected");
+            core::mem::forget(r);
+            let r = Address::from_bytes(&b[..1]);
+            assert!(r.is_err(), "undefined header types are rejected (header only)");
+            core::mem::forget(r);
+        }
+        t += 1;
+    }
+    let r = Address::from_bytes(&b[..0]);
+    assert!(r.is_err(), "the empty input is rejected");
+    core::mem::forget(r);
+    kani::cover!(sel == 13 && !lo, "header 0xdf");
+}
+
+/// vacuity twin: must come back FAILED
 #[kani::proof]
 #[kani::unwind(4)]
 #[kani::stub(std::fmt::format, crate::stubs::fmt_format_stub)]
-fn c09_q_addr_undefined_types() {
-    let b: [u8; 58] = kani::any();
-    kani::assume(b[0] >> 4 >= 9 && b[0] >> 4 <= 13);
+fn c09_v_twin() {
+    let mut b: [u8; 30] = kani::any();
+    b[0] = 0x61;
     let n: usize = kani::any();
-    kani::assume(n <= 58);
+    kani::assume(n <= 30);
     let r = Address::from_bytes(&b[..n]);
-    assert!(r.is_err(), "undefined header types and the empty input are rejected");
-    kani::cover!(n == 0, "empty input");
-    kani::cover!(n == 58, "full length");
+    assert!(r.is_ok(), "twin: must fail");
     core::mem::forget(r);
 }
